@@ -7,12 +7,27 @@
    state, panicking steps included), iterators (C09: only in-shape indexes are issued) and view
    compositions (C02_present_iff) are theorems of those properties' files.  At run time the
    verif-hooks assertions inside the three leaf unchecked accessors monitor every workload of
-   every property (tools/props/c10.py). *)
+   every property (tools/props/c10.py).
+   Session 3 additions (inventory of every unsafe site: notes/C10.md):
+   * tensors as a state machine over their safe mutators (Model/TensorOps.v: reshape_mut, rename,
+     reorder_mut, transpose_mut, map_mut / map_mut_with_index with a closure that panics at any
+     call, get_reference_mut writes, writes through any adaptor stack built over &mut tensor): the
+     representation invariant holds in EVERY reached state, rejected calls leave the tensor
+     untouched (the validation precedes every access), the in-place swap loop cannot panic;
+   * the 21 `unsafe { .. }` blocks of the crate (all inside iterator next() functions) only ever
+     hand over indexes inside the source's shape — for any source, any prefix, empty sources —
+     and for every source built by the adaptor constructors such an index is routed down to a
+     storage offset inside the stored data of the tensor at the bottom.
+   Own correspondence (Run/RunC10.v): closure / iterator panic injection, tensor mutation
+   histories (10 7), matrix mutation histories under hooks (10 8), stack / chain constructor
+   walks (10 9). *)
 From Coq Require Import List ZArith NArith Bool Arith.
 From EasyML Require Import Base.Sx Model.Shape Model.Tensor Model.U64 Model.Fallible
      Proofs.ShapeP Proofs.C01P Proofs.C16P Proofs.C10P.
 From EasyML Require Model.Matrix Model.MatrixViews Model.Views Model.Transform Proofs.C10Matrix
      Proofs.C12P Proofs.C12Partition Proofs.C02W Proofs.OdometerP.
+From EasyML Require Model.TSource Model.ShapeIter Model.MatrixIter Model.TensorOps Proofs.SrcWfP
+     Proofs.C09MatOwnedP Proofs.C10TensorP Proofs.C10IterP.
 Import ListNotations.
 Open Scope N_scope.
 
@@ -97,3 +112,162 @@ Print Assumptions C10_matrix_invariant_every_reached_state.
 Print Assumptions C10_matrix_view_resolves_in_bounds.
 Print Assumptions C10_tensor_view_resolves_in_bounds.
 Print Assumptions C10_iterator_indexes_in_range.
+
+(* ================= session 3 ================= *)
+
+(* ---- tensors: the representation invariant in EVERY state reached by ANY history of safe
+   mutators (Model/TensorOps.v), whatever the arguments, including the states left behind by
+   calls that panic (invalid shapes / names, closures panicking at their k-th call) ---- *)
+Theorem C10_tensor_ctor_rep : forall A sh (data : list A) t,
+  tensor_try_from sh data = Ok t \/ tensor_from sh data = Ok t -> C10TensorP.tensor_rep t.
+Proof. exact @C10TensorP.tensor_from_rep. Qed.
+
+Theorem C10_tensor_invariant_every_reached_state :
+  forall A (ops : list (TensorOps.top A)) (t : tensor A), C10TensorP.tensor_rep t ->
+  Forall (fun st => C10TensorP.tensor_rep (fst st)) (TensorOps.ttrace t ops).
+Proof. exact @C10TensorP.ttrace_rep. Qed.
+
+Theorem C10_tensor_invariant_step : forall A (t : tensor A) (o : TensorOps.top A),
+  C10TensorP.tensor_rep t -> C10TensorP.tensor_rep (fst (TensorOps.tstep t o)).
+Proof. exact @C10TensorP.tstep_rep. Qed.
+
+(* reshape_owned (= Tensor::from on the stored data) and reshape_mut re-validate *)
+Theorem C10_reshape_rep : forall A (t t' : tensor A) sh,
+  Transform.reshape_mut t sh = Ok t' \/ Transform.reshape_owned t sh = Ok t' -> C10TensorP.tensor_rep t'.
+Proof. exact @C10TensorP.reshape_rep. Qed.
+
+(* a write through ANY adaptor term (no well-formedness hypothesis) replaces one stored element of
+   the tensor at the bottom: shape, strides and stored length are untouched *)
+Theorem C10_write_through_any_adaptor_keeps_frame : forall A (s s' : TSource.tsrc A) idx v,
+  TSource.src_set s idx v = Some s' ->
+  C10TensorP.same_frame (TSource.src_base s) (TSource.src_base s').
+Proof. exact @C10TensorP.src_set_frame. Qed.
+
+(* panics / errors / absent indexes are decided BEFORE anything is written: such a step leaves the
+   tensor exactly as it was (the two map operations panic only through the user's closure) *)
+Theorem C10_tensor_step_rejection_before_access : forall A (t : tensor A) (o : TensorOps.top A),
+  match o with TensorOps.TMapMut _ _ | TensorOps.TMapMutWithIndex _ _ => False | _ => True end ->
+  snd (TensorOps.tstep t o) <> 0%nat -> fst (TensorOps.tstep t o) = t.
+Proof. exact @C10TensorP.tstep_rejection_before_access. Qed.
+
+(* reorder_mut / transpose_mut: the only panic is the rejected dimension list, before the swap
+   loop; the unwraps inside the in-place loop never fire *)
+Theorem C10_reorder_mut_panics_only_on_names : forall A (t : tensor A) dims,
+  C10TensorP.tensor_rep t -> length dims = length (t_shape t) ->
+  (Transform.reorder_mut t dims = Panic <-> dm_new (names_of (t_shape t)) dims = None) /\
+  (Transform.transpose_mut t dims = Panic <-> dm_new (names_of (t_shape t)) dims = None).
+Proof. exact @C10TensorP.reorder_mut_panics_only_on_names. Qed.
+
+(* ---- the unsafe blocks of the tensor iterators (src/tensors/indexing.rs:919, 1101, 1219, 1385):
+   every index handed to get_reference_unchecked(_mut) is inside the source's view_shape, for
+   ANY source and any number of calls ---- *)
+Theorem C10_tensor_iter_places_in_shape : forall A (s : TSource.tsrc A) k,
+  Forall (fun idx => in_range idx (lens_of (TSource.src_shape s)))
+    (map fst (Transform.somes (map fst (fst
+       (ShapeIter.drive ShapeIter.ti_next ShapeIter.ti_len k (ShapeIter.tensor_iter_from s)))))).
+Proof. exact @C10IterP.tensor_iter_places_in_shape. Qed.
+
+Theorem C10_tensor_owned_iter_places_in_shape : forall A dflt (s : TSource.tsrc A) k,
+  Forall (fun idx => in_range idx (lens_of (TSource.src_shape s)))
+    (map fst (Transform.somes (map fst (fst
+       (ShapeIter.drive (ShapeIter.ti_next_owned dflt) ShapeIter.ti_len k (ShapeIter.tensor_iter_from s)))))).
+Proof. exact @C10IterP.tensor_owned_iter_places_in_shape. Qed.
+
+(* ... and for every source the adaptor constructors can build, an index inside the view's shape
+   is routed adaptor by adaptor to an index inside the shape of the tensor at the bottom whose
+   storage offset lies inside the stored data: what unwrap_unchecked + get_unchecked rely on *)
+Theorem C10_constructed_route_in_bounds : forall A (s : TSource.tsrc A) idx, SrcWfP.constructed s ->
+  in_range idx (lens_of (TSource.src_shape s)) ->
+  exists b p x, C10IterP.src_route s idx = Some b /\
+    in_range b (lens_of (t_shape (TSource.src_base s))) /\
+    get_index_direct b (t_strides (TSource.src_base s)) (t_shape (TSource.src_base s)) = Some p /\
+    (N.to_nat p < length (t_data (TSource.src_base s)))%nat /\
+    nth_error (t_data (TSource.src_base s)) (N.to_nat p) = Some x /\ TSource.src_get s idx = Some x.
+Proof. exact @C10IterP.constructed_route_in_bounds. Qed.
+
+Theorem C10_route_is_get : forall A (s : TSource.tsrc A) idx,
+  TSource.src_get s idx = match C10IterP.src_route s idx with
+                          | Some b => t_get (TSource.src_base s) b
+                          | None => None
+                          end.
+Proof. exact @C10IterP.src_get_route. Qed.
+
+Theorem C10_constructed_iter_accesses_present : forall A (s : TSource.tsrc A) k, SrcWfP.constructed s ->
+  Forall (fun item : list N * option A => exists x, snd item = Some x)
+    (Transform.somes (map fst (fst
+       (ShapeIter.drive ShapeIter.ti_next ShapeIter.ti_len k (ShapeIter.tensor_iter_from s))))).
+Proof. exact @C10IterP.constructed_iter_accesses_present. Qed.
+
+(* ---- the 17 unsafe blocks of the matrix iterators (src/matrices/iterators.rs): every
+   (row, column) handed to get_reference_unchecked(_mut) is inside the source's size; an empty
+   (0xN / Nx0) source issues no access ---- *)
+Theorem C10_major_iter_places_in_size : forall A rm (s : MatrixIter.msrc A) k,
+  Forall (C10IterP.in_size s)
+    (map fst (Transform.somes (map fst (fst
+       (ShapeIter.drive MatrixIter.mi_next MatrixIter.mi_len k (MatrixIter.major_iter_from rm s)))))).
+Proof. exact @C10IterP.major_iter_places_in_size. Qed.
+
+Theorem C10_major_owned_iter_places_in_size : forall A dflt rm (s : MatrixIter.msrc A) k,
+  Forall (C10IterP.in_size s)
+    (map fst (Transform.somes (map fst (fst
+       (ShapeIter.drive (MatrixIter.mi_next_owned dflt) MatrixIter.mi_len k (MatrixIter.major_iter_from rm s)))))).
+Proof. exact @C10IterP.major_owned_iter_places_in_size. Qed.
+
+Theorem C10_column_iter_places_in_size : forall A (s : MatrixIter.msrc A) column it k,
+  MatrixIter.column_iter_from s column = Ok it ->
+  Forall (C10IterP.in_size s)
+    (map fst (Transform.somes (map fst (fst (ShapeIter.drive MatrixIter.li_next MatrixIter.li_len k it))))).
+Proof. exact @C10IterP.column_iter_places_in_size. Qed.
+
+Theorem C10_row_iter_places_in_size : forall A (s : MatrixIter.msrc A) row it k,
+  MatrixIter.row_iter_from s row = Ok it ->
+  Forall (C10IterP.in_size s)
+    (map fst (Transform.somes (map fst (fst (ShapeIter.drive MatrixIter.li_next MatrixIter.li_len k it))))).
+Proof. exact @C10IterP.row_iter_places_in_size. Qed.
+
+Theorem C10_diagonal_iter_places_in_size : forall A (s : MatrixIter.msrc A) k,
+  Forall (C10IterP.in_size s)
+    (map fst (Transform.somes (map fst (fst
+       (ShapeIter.drive MatrixIter.li_next MatrixIter.li_len k (MatrixIter.diagonal_iter_from s)))))).
+Proof. exact @C10IterP.diagonal_iter_places_in_size. Qed.
+
+(* inside the size of a well-formed matrix source (Matrix, MatrixRange incl. empty, MatrixReverse)
+   every element exists *)
+Theorem C10_wf_matrix_place_present : forall A (s : MatrixIter.msrc A) p,
+  C09MatOwnedP.msrc_wf s -> C10IterP.in_size s p -> exists x, MatrixIter.ms_get s (fst p) (snd p) = Some x.
+Proof. exact @C10IterP.wf_matrix_place_present. Qed.
+
+(* non-vacuity of the session-3 statements: a 2x2 tensor driven through a history with a rejected
+   reshape, an in-place transposition, a closure panicking at its 3rd call and a write through
+   Reverse-then-Range; a constructed Range-over-Transpose source and the route of one index *)
+Example C10_nonvacuous_history :
+  exists t : tensor Z, tensor_from [(0%nat, 2); (1%nat, 2)] [1; 2; 3; 4]%Z = Ok t /\ C10TensorP.tensor_rep t /\
+  map (fun st => (snd st, t_data (fst st)))
+      (TensorOps.ttrace t [TensorOps.TReshapeMut [(0%nat, 3); (1%nat, 2)];
+                           TensorOps.TTransposeMut [1%nat; 0%nat];
+                           TensorOps.TMapMut (fun x => x + 10)%Z 2;
+                           TensorOps.TWriteVia [TensorOps.VRev [0%nat]; TensorOps.VRange [(1, 1); (0, 2)]] [0; 1] 99%Z])
+  = [(2%nat, [1; 2; 3; 4]%Z); (0%nat, [1; 3; 2; 4]%Z); (2%nat, [11; 13; 2; 4]%Z); (0%nat, [11; 99; 2; 4]%Z)].
+Proof.
+  eexists. split; [reflexivity|]. split; [|vm_compute; reflexivity].
+  apply (C10TensorP.tensor_from_rep [(0%nat, 2); (1%nat, 2)] [1; 2; 3; 4]%Z). right. vm_compute. reflexivity.
+Qed.
+
+Print Assumptions C10_tensor_ctor_rep.
+Print Assumptions C10_tensor_invariant_every_reached_state.
+Print Assumptions C10_tensor_invariant_step.
+Print Assumptions C10_reshape_rep.
+Print Assumptions C10_write_through_any_adaptor_keeps_frame.
+Print Assumptions C10_tensor_step_rejection_before_access.
+Print Assumptions C10_reorder_mut_panics_only_on_names.
+Print Assumptions C10_tensor_iter_places_in_shape.
+Print Assumptions C10_tensor_owned_iter_places_in_shape.
+Print Assumptions C10_constructed_route_in_bounds.
+Print Assumptions C10_route_is_get.
+Print Assumptions C10_constructed_iter_accesses_present.
+Print Assumptions C10_major_iter_places_in_size.
+Print Assumptions C10_major_owned_iter_places_in_size.
+Print Assumptions C10_column_iter_places_in_size.
+Print Assumptions C10_row_iter_places_in_size.
+Print Assumptions C10_diagonal_iter_places_in_size.
+Print Assumptions C10_wf_matrix_place_present.
